@@ -146,6 +146,8 @@ class Tracer:
         # closures / lambdas that are returned or handed to another callable (run later, if at all):
         # (name, file:line, names of stream objects the deferred body refers to)
         self.deferred: List[Tuple[str, str, Tuple[str, ...]]] = []
+        # every predicate a branch was taken on, as (base expression, kind of test) - see gate_of
+        self.gates: Set[Tuple[str, Any]] = set()
 
     # ------------------------------------------------------------------ entry
     def run(self, fi: FuncInfo, stream_param: Optional[str] = None, self_is_stream=False,
@@ -261,6 +263,13 @@ class Tracer:
         hit = st.pc.get(self._k(test, fr, st))
         if hit is not None:
             return hit[0]
+        if isinstance(test, ast.Compare) and len(test.ops) == 1 and isinstance(test.ops[0], (ast.Is, ast.IsNot)) \
+                and isinstance(test.comparators[0], ast.Constant) and test.comparators[0].value is None:
+            # attributes of the spec object are None or an object: `X is not None` answers like `X`
+            k = self._k(test.left, fr, st)
+            if k[0] == "@" and k in st.pc:
+                truthy = st.pc[k][0]
+                return truthy if isinstance(test.ops[0], ast.IsNot) else (not truthy)
         if isinstance(test, ast.UnaryOp) and isinstance(test.op, ast.Not):
             v = self.tv(test.operand, st, fr)
             return None if v is None else (not v)
@@ -284,6 +293,54 @@ class Tracer:
     def assume(self, test, pol: bool, st: St, fr: Frame):
         for e, p in atoms(test, pol):
             st.pc[self._k(e, fr, st)] = (p, _names(e), self.sym(e, st, fr))
+            if isinstance(e, ast.Compare) and len(e.ops) == 1 and isinstance(e.ops[0], (ast.Is, ast.IsNot)) \
+                    and isinstance(e.comparators[0], ast.Constant) and e.comparators[0].value is None:
+                k = self._k(e.left, fr, st)
+                if k[0] == "@" and k not in st.pc:
+                    st.pc[k] = (p if isinstance(e.ops[0], ast.IsNot) else (not p), _names(e.left), k[1])
+        self._collect_gates(test, st, fr)
+
+    # -- gate predicates: what is tested about which expression (polarity and boolean structure dropped)
+    _OPSYM = {ast.BitAnd: "&", ast.BitOr: "|", ast.BitXor: "^", ast.Add: "+", ast.Sub: "-", ast.Mult: "*",
+              ast.LShift: "<<", ast.RShift: ">>", ast.FloorDiv: "//", ast.Mod: "%", ast.Div: "/"}
+
+    def cexpr(self, node, st: St, fr: Frame) -> str:
+        if isinstance(node, ast.BinOp) and type(node.op) in self._OPSYM:
+            l, r = self.cexpr(node.left, st, fr), self.cexpr(node.right, st, fr)
+            if isinstance(node.op, (ast.BitAnd, ast.BitOr, ast.BitXor, ast.Add, ast.Mult)):
+                l, r = sorted((l, r))                    # commutative
+            return f"({l} {self._OPSYM[type(node.op)]} {r})"
+        if isinstance(node, ast.UnaryOp) and isinstance(node.op, (ast.USub, ast.Invert)):
+            return f"({'-' if isinstance(node.op, ast.USub) else '~'}{self.cexpr(node.operand, st, fr)})"
+        if isinstance(node, ast.Call) and not (isinstance(node.func, ast.Name) and node.func.id in ("len", "getattr", "type")):
+            args = [self.cexpr(a, st, fr) for a in node.args] + [f"{k.arg}={self.cexpr(k.value, st, fr)}" for k in node.keywords]
+            return f"{self.sym(node.func, st, fr)}({','.join(args)})"
+        return self.sym(node, st, fr)
+
+    def gate_of(self, e, st: St, fr: Frame):
+        while isinstance(e, ast.UnaryOp) and isinstance(e.op, ast.Not):
+            e = e.operand
+        if isinstance(e, ast.Compare) and len(e.ops) == 1:
+            op, l, r = e.ops[0], e.left, e.comparators[0]
+            if isinstance(op, (ast.Is, ast.IsNot)) and isinstance(r, ast.Constant) and r.value is None:
+                return self.cexpr(l, st, fr), "none-test"
+            if isinstance(l, ast.Constant) and not isinstance(r, ast.Constant) and not isinstance(op, (ast.In, ast.NotIn)):
+                l, r = r, l
+                op = {ast.Lt: ast.Gt, ast.Gt: ast.Lt, ast.LtE: ast.GtE, ast.GtE: ast.LtE}.get(type(op), type(op))()
+            k = "eq" if isinstance(op, (ast.Eq, ast.NotEq)) else "lt" if isinstance(op, (ast.Lt, ast.GtE)) else \
+                "gt" if isinstance(op, (ast.Gt, ast.LtE)) else "in" if isinstance(op, (ast.In, ast.NotIn)) else \
+                "is" if isinstance(op, (ast.Is, ast.IsNot)) else "?"
+            return self.cexpr(l, st, fr), (k, self.cexpr(r, st, fr))
+        return self.cexpr(e, st, fr), "truthy"
+
+    def _collect_gates(self, test, st: St, fr: Frame):
+        if isinstance(test, ast.BoolOp):
+            for v in test.values:
+                self._collect_gates(v, st, fr)
+        elif isinstance(test, ast.UnaryOp) and isinstance(test.op, ast.Not):
+            self._collect_gates(test.operand, st, fr)
+        else:
+            self.gates.add(self.gate_of(test, st, fr))
 
     def add_guard(self, test, pol: bool, st: St, fr: Frame):
         g = Guard(id(test), pol, len(st.tok), st.loopdepth > 0, test, dict(st.env), fr)
@@ -329,7 +386,8 @@ class Tracer:
         return out
 
     def stmt(self, s, st: St, fr: Frame) -> List[St]:
-        if self.pre_stmt_hooks and isinstance(s, (ast.Expr, ast.Assign, ast.AnnAssign, ast.AugAssign, ast.Return)):
+        if self.pre_stmt_hooks and isinstance(s, (ast.Expr, ast.Assign, ast.AnnAssign, ast.AugAssign, ast.Return,
+                                                  ast.For)):
             for h in self.pre_stmt_hooks:
                 h(s, st, fr)
         if isinstance(s, ast.Expr):
